@@ -11,7 +11,8 @@ From TV Require Import Lib.Obs C06.Model C06.Spec C06.Run C06.ProofsBase C06.Pro
 
 (* REF — for every program (any sequence of add / set / delete / get / get_list / membership /
    iteration / get_all / parse_line incl. continuation / str / copy / parse / parse(str) / the MutableMapping
-   mixins get, pop, setdefault, items, len, update / the dict-style constructor / ==) over any
+   mixins get, pop, popitem, clear, setdefault, items, values, len, update / the dict-style and keyword
+   constructor / ==) over any
    number of objects, started in any store satisfying the invariant, every command returns what
    the cache-free multimap returns, the stores stay related, and the invariant is kept. *)
 Theorem C06_refines_multimap : forall cs st, Forall inv st ->
@@ -71,6 +72,19 @@ Theorem C06_items_are_comma_joined : forall h, inv h ->
   abs (snd (items h)) = abs h /\ inv (snd (items h)).
 Proof. exact items_combined. Qed.
 Print Assumptions C06_items_are_comma_joined.
+
+(* popitem() removes and returns the FIRST key (insertion order) with its comma-joined value; clear() always
+   terminates normally with an empty map (the fuel of the model's loop, len(h), is never exhausted) *)
+Theorem C06_popitem_takes_first_key : forall h k vs al, inv h -> as_list h = (k, vs) :: al ->
+  exists h', step PopItem h = (RPairs [(k, join [c_comma] vs)], h') /\
+             as_list h' = al /\ last_key h' = last_key h /\ inv h'.
+Proof. exact popitem_spec. Qed.
+Print Assumptions C06_popitem_takes_first_key.
+
+Theorem C06_clear_empties_the_map : forall h, inv h ->
+  exists h', step Clear h = (RUnit, h') /\ as_list h' = [] /\ last_key h' = last_key h /\ inv h'.
+Proof. exact clear_spec. Qed.
+Print Assumptions C06_clear_empties_the_map.
 
 (* == is reflexive on the combined view, so objects with the same list store compare equal *)
 Theorem C06_same_store_compares_equal : forall h h', inv h -> inv h' -> as_list h' = as_list h ->
